@@ -10,7 +10,7 @@ struct FakeLoop : tbox::event::Loop {
   void runLoop(Mode) override {} void exitLoop(const std::chrono::milliseconds &) override {}
   bool isInLoopThread() override { return true; } bool isRunning() const override { return true; }
   RunId runInLoop(Func &&f, const std::string &) override { std::lock_guard<std::mutex> g(m); if (closed_for_workers && sched_self() != 0) late_worker_posts++; q.push_back(std::move(f)); return ++posted; }
-  RunId runInLoop(const Func &f, const std::string &) override { std::lock_guard<std::mutex> g(m); q.push_back(f); return ++posted; }
+  RunId runInLoop(const Func &f, const std::string &) override { std::lock_guard<std::mutex> g(m); if (closed_for_workers && sched_self() != 0) late_worker_posts++; q.push_back(f); return ++posted; }
   RunId runNext(Func &&f, const std::string &w) override { return runInLoop(std::move(f), w); }
   RunId runNext(const Func &f, const std::string &w) override { return runInLoop(f, w); }
   RunId run(Func &&f, const std::string &w) override { return runInLoop(std::move(f), w); }
